@@ -238,6 +238,6 @@ pub fn subs() -> Vec<Sub> {
         Sub { prop: "C16", name: "exhaustive-deeper", rule: "the same value lists with <= 4 Pendings in total, 3 drops and the full acceptance spread (thorough; capped at 5*10^7 schedules per subtree)",
               kind: SubKind::Enumerate { quick: 0, thorough: n, f: exhaustive_thorough, complete_quick: false, complete_thorough: true } },
         Sub { prop: "C16", name: "random-walks", rule: "1-4 generated values (payloads up to 70 KB, failing and over-long values mixed in), schedule drawn from the tape with up to 4 consecutive Pendings, 3 errors, 2 accept-0 and 11 drops",
-              kind: SubKind::Random { quick: 60_000, thorough: 3_000_000, tape: 2048, f: random_walk } },
+              kind: SubKind::Random { quick: 300_000, thorough: 3_000_000, tape: 2048, f: random_walk } },
     ]
 }
